@@ -9,6 +9,8 @@ compared with a re-implementation of the Stroh eigenvector sums.
 """
 from __future__ import annotations
 
+import zlib
+
 import numpy as np
 
 from ..core import fingerprint
@@ -341,10 +343,325 @@ class Probe:
 
 
 # ----------------------------------------------------------------------------
+# independence of a solved object from what the caller does AFTERWARDS
+#
+# A solution is a value: once solve() has returned, nothing the caller does to the objects it handed in (they are the caller's,
+# e.g. one ElasticConstants object or one m array re-used in a loop over materials / orientations) or to the arrays the
+# solution handed back may change what the solution reports.  After solving, the harness changes every such object it still
+# holds - one object at a time, through its public setters or in place (re-binding a name cannot have an effect and is not
+# generated) -, re-reads every attribute and re-evaluates every field after each change and requires bit-identical results;
+# the baseline itself has been judged against the ORIGINAL inputs by the Probe.  Each change is then undone in place, so that a
+# live reference found by one change cannot hide (or fake) the next one; if the baseline does not come back the rest of the
+# sequence is skipped and counted.
+INDEP_CLAUSE = ('a solved dislocation does not depend on what the caller does afterwards to the objects it handed in or got back: after the change '
+                'every attribute re-read and every field re-evaluated is bit-identical to the one taken before')
+INDEP_OBJECTS = ['arg-C', 'arg-burgers', 'arg-transform', 'arg-xi_uvw', 'arg-slip_hkl', 'arg-m', 'arg-n', 'arg-box', 'arg-positions',
+                 'returned-K_tensor', 'returned-burgers', 'returned-transform', 'returned-m', 'returned-n', 'returned-xi', 'returned-C',
+                 'returned-eigensolution', 'returned-fields']
+INDEP_MODES = ['scale', 'overwrite', 'nan']
+INDEP_C_HOWS = ['setter:Cij', 'setter:Cijkl', 'setter:Sij', 'method:cubic', 'method:isotropic']
+INDEP_BOX_HOWS = ['setter:vects', 'method:set(a,b,c,angles)', 'setter:origin+vects']
+N_INDEP_POINTS = 12
+
+
+def _scramble(obj, rng, mode):
+    """Change an ndarray or (nested) list IN PLACE; returns restore() or None when the object cannot be changed in place
+    (str, tuple, number, read-only array)."""
+    import copy
+    if isinstance(obj, np.ndarray):
+        if not obj.flags.writeable or obj.size == 0:
+            return None
+        saved = obj.copy()
+        kind = obj.dtype.kind
+        if kind in 'iu':                                   # Miller indices
+            if mode == 'nan':
+                obj[...] = 0
+            elif mode == 'scale':
+                obj[...] = -3 * saved
+            else:
+                obj[...] = np.roll(saved, 1, axis=-1) + np.arange(1, saved.shape[-1] + 1)
+        elif kind in 'fc':
+            if mode == 'nan':
+                obj[...] = np.nan
+            elif mode == 'scale':
+                obj *= -1.7
+            else:
+                obj[...] = rng.normal(size=obj.shape) * (float(np.abs(saved).max()) or 1.0)
+        else:
+            return None
+
+        def restore():
+            obj[...] = saved
+        return restore
+    if isinstance(obj, list):
+        saved = copy.deepcopy(obj)
+
+        def walk(l):
+            for k, v in enumerate(l):
+                if isinstance(v, list):
+                    walk(v)
+                elif isinstance(v, (int, float, np.integer, np.floating)) and not isinstance(v, bool):
+                    l[k] = float('nan') if mode == 'nan' else (-1.7 * v if mode == 'scale' else float(rng.normal()) + 3.0 * v)
+
+        def unwalk(l, s):
+            for k, v in enumerate(s):
+                if isinstance(v, list):
+                    unwalk(l[k], v)
+                else:
+                    l[k] = v
+        walk(obj)
+        return lambda: unwalk(obj, saved)
+    return None
+
+
+def _all(restores):
+    restores = [r for r in restores if r is not None]
+    if not restores:
+        return None
+
+    def restore():
+        for r in reversed(restores):          # two solutions may hold the same array: undo in reverse order
+            r()
+    return restore
+
+
+def _readout(w):
+    """Everything a solution reports, as private copies (positions are a fresh copy every time)."""
+    sol = w['sol']
+    x = w['x0'].copy()
+    out = {}
+    for name in ('burgers', 'transform', 'm', 'n', 'ξ'):
+        out[name] = np.array(getattr(sol, name))
+    out['tol'] = np.array(sol.tol)
+    out['C.Cij'] = np.array(sol.C.Cij)
+    out['C.Cijkl'] = np.array(sol.C.Cijkl)
+    out['characterangle'] = np.array([sol.characterangle(), sol.characterangle(unit='radian')])
+    out['K_tensor'] = np.array(sol.K_tensor)
+    out['preln'] = np.array(sol.preln)
+    out['K_coeff'] = np.array(sol.K_coeff)
+    if w['solver'] == 'stroh':
+        for name in ('p', 'A', 'L', 'k'):
+            out[name] = np.array(getattr(sol, name))
+    else:
+        out['mu'], out['nu'] = np.array(sol.mu), np.array(sol.nu)
+    for name in ('displacement', 'strain', 'stress'):
+        out[name] = np.array(getattr(sol, name)(x))
+    out['stress(single point)'] = np.array(sol.stress(x[0]))
+    out['displacement(single point, list)'] = np.array(sol.displacement(x[1].tolist()))
+    out['strain(single point)'] = np.array(sol.strain(x[2]))
+    return out
+
+
+def _changed(base, w):
+    try:
+        with np.errstate(all='ignore'):
+            now = _readout(w)
+    except Exception as e:                                  # noqa: BLE001 - whatever the changed object makes the solution raise
+        return [f'exception {type(e).__name__}: {e}'[:200]]
+    return [k for k in base if not (now[k].shape == base[k].shape and now[k].dtype == base[k].dtype and np.array_equal(now[k], base[k], equal_nan=True))]
+
+
+def _indep_violation(rec, key, **detail):
+    """One violation written out in full per key and worker (there are many objects x solutions; the recorder keeps 40 in full),
+    the others are counted under the same key."""
+    if rec.viol_keys.get(key, 0) >= 1:
+        rec.n_violations += 1
+        rec.viol_keys[key] += 1
+    else:
+        rec.fail(INDEP_CLAUSE, key, **detail)
+
+
+def independence(ctx, am, idx, args, watched, orient, group, nfam=5):
+    """args: the argument OBJECTS the harness still holds: C (ElasticConstants), C_src (array it was built from or None),
+    burgers (list of the arrays handed in), kw (the keyword dict handed in: transform/axes, ξ_uvw, slip_hkl, box, m, n).
+    watched: list of dict(sol, solver 'stroh'|'iso', entry 'direct'|'wrapper'|'re-solved'|'partner', x (N,3) points).
+    orient: 'identity' | 'rotated' | 'miller'.  nfam: how many of the five families of changes (C / other arguments / cell / positions and
+    returned fields / returned attributes) are applied, starting with family idx % 5 (all of them for freshly constructed solutions, two per
+    step of a re-solve history)."""
+    rec = ctx.rec
+    rng = np.random.default_rng([int(ctx.seed), zlib.crc32(group.encode()), int(idx), 977])
+    C, kw = args['C'], args['kw']
+    for w in watched:
+        w['x0'] = np.array(w['x'][:N_INDEP_POINTS], float)
+        w['cls'] = 'Stroh' if w['solver'] == 'stroh' else 'Isotropic'
+        w['base'] = _readout(w)
+        sol = w['sol']
+        # what the solution hands back (the objects themselves, to be changed in place later) and positions it was given
+        w['xe'], w['xl'] = w['x0'].copy(), w['x0'][3].tolist()
+        w['raw'] = dict(K_tensor=sol.K_tensor, burgers=sol.burgers, transform=sol.transform, m=sol.m, n=sol.n, xi=sol.ξ, C=sol.C,
+                        fields=[sol.displacement(w['xe']), sol.strain(w['xe']), sol.stress(w['xe']), sol.stress(w['xl']), sol.displacement(w['xl'])],
+                        eig=[getattr(sol, nm) for nm in ('p', 'A', 'L', 'k')] if w['solver'] == 'stroh' else [sol.mu, sol.nu])
+        rec.count(f'class:independent:{w["cls"]}:{w["entry"]}:{orient}')
+    mode_of = lambda j: INDEP_MODES[(idx + j) % len(INDEP_MODES)]           # noqa: E731
+
+    # --- the changes: (object, how, apply) ; apply() performs the change and returns restore() or None (not applicable) ---------
+    def c_values(Cobj):
+        c6 = np.array(Cobj.Cij)
+        cmax = float(np.abs(c6).max())
+        return c6, cmax, 1.9 * c6 + 0.3 * cmax * np.eye(6)
+
+    def c_set(Cobj, how):
+        c6, cmax, new = c_values(Cobj)
+        if how == 'setter:Cij':
+            Cobj.Cij = new
+        elif how == 'setter:Cijkl':
+            Cobj.Cijkl = O.c4_from_voigt(new)
+        elif how == 'setter:Sij':
+            Cobj.Sij = np.linalg.inv(new)
+        elif how == 'method:cubic':
+            Cobj.cubic(C11=2.1 * cmax, C12=0.9 * cmax, C44=0.7 * cmax)
+        else:
+            Cobj.isotropic(mu=0.8 * cmax, nu=0.27)
+        return c6
+
+    def c_restore(Cobj, c6, src=None, src_saved=None):
+        def restore():
+            if src is not None and src.shape == (6, 6):     # hand the same array in again: the object is built exactly as it was
+                src[...] = src_saved
+                Cobj.Cij = src
+            else:
+                Cobj.Cij = c6
+        return restore
+
+    src = args.get('C_src')
+    src_saved = None if src is None else src.copy()
+    muts = []
+
+    def fam_C():
+        out = []
+        j = len(muts)
+        if src is not None:
+            out.append(('arg-C', 'inplace:array-it-was-built-from:' + mode_of(j), lambda: _scramble(src, rng, mode_of(j))))
+        else:
+            rec.count('independent:not-applicable:arg-C:source-array')
+        g = ('Cij', 'Cijkl')[idx % 2]
+        out.append(('arg-C', f'inplace:array-returned-by-{g}:' + mode_of(j + 1), lambda: _scramble(getattr(C, g), rng, mode_of(j + 1))))
+        how = INDEP_C_HOWS[idx % len(INDEP_C_HOWS)]
+        how2 = INDEP_C_HOWS[(idx // len(INDEP_C_HOWS) + idx + 1) % len(INDEP_C_HOWS)]
+
+        def setter(h):
+            def apply():
+                c6 = c_set(C, h)
+                return c_restore(C, c6, src, src_saved)
+            return apply
+        out.append(('arg-C', how, setter(how)))
+        if how2 != how:
+            out.append(('arg-C', how2, setter(how2)))
+        return out
+
+    def fam_args():
+        out = []
+        j = len(muts) + 5
+        out.append(('arg-burgers', 'inplace:' + mode_of(j), lambda: _all([_scramble(b, rng, mode_of(j)) for b in args['burgers']])))
+        for nm, obj in (('transform', 'arg-transform'), ('axes', 'arg-transform'), ('ξ_uvw', 'arg-xi_uvw'), ('slip_hkl', 'arg-slip_hkl'), ('m', 'arg-m'), ('n', 'arg-n')):
+            if nm in kw:
+                j += 1
+                out.append((obj, f'inplace:{type(kw[nm]).__name__}:' + mode_of(j), (lambda nm=nm, j=j: _scramble(kw[nm], rng, mode_of(j)))))
+        return out
+
+    def fam_box():
+        box = kw.get('box')
+        if box is None:
+            return []
+        how = INDEP_BOX_HOWS[idx % len(INDEP_BOX_HOWS)]
+
+        def apply():
+            v0, o0 = np.array(box.vects), np.array(box.origin)
+            if how == 'setter:vects':
+                box.vects = 1.37 * v0 @ G.random_rotation(rng).T
+            elif how == 'method:set(a,b,c,angles)':
+                box.set(a=2.0, b=3.1, c=4.7, alpha=81.0, beta=97.0, gamma=66.0)
+            else:
+                box.origin = [1.5, -2.0, 0.25]
+                box.vects = np.array([[3.0, 0, 0], [0.4, 2.0, 0], [0.1, -0.3, 5.0]])
+
+            def restore():
+                box.vects = v0
+                box.origin = o0
+            return restore
+        return [('arg-box', how, apply)]
+
+    def fam_positions():
+        j = len(muts) + 2
+        return [('arg-positions', 'inplace:after-evaluation:' + mode_of(j),
+                 lambda: _all([_scramble(w['xe'], rng, mode_of(j)) for w in watched] + [_scramble(w['xl'], rng, mode_of(j)) for w in watched])),
+                ('returned-fields', 'inplace:' + mode_of(j + 1),
+                 lambda: _all([_scramble(a, rng, mode_of(j + 1)) for w in watched for a in w['raw']['fields'] if isinstance(a, np.ndarray)]))]
+
+    def fam_returned():
+        out = []
+        j = len(muts) + 7
+        for nm in ('K_tensor', 'burgers', 'transform', 'm', 'n', 'xi'):
+            j += 1
+            out.append(('returned-' + nm, 'inplace:' + mode_of(j), (lambda nm=nm, j=j: _all([_scramble(w['raw'][nm], rng, mode_of(j)) for w in watched]))))
+        out.append(('returned-eigensolution', 'inplace:' + mode_of(j + 1),
+                    lambda: _all([_scramble(a, rng, mode_of(j + 1)) for w in watched for a in w['raw']['eig'] if isinstance(a, np.ndarray)])))
+        how = INDEP_C_HOWS[(idx + 2) % len(INDEP_C_HOWS)]
+
+        def ret_c_setter():
+            rs = []
+            for w in watched:
+                Cr = w['raw']['C']
+                rs.append(c_restore(Cr, c_set(Cr, how)))
+            return _all(rs)
+        out.append(('returned-C', how, ret_c_setter))
+        out.append(('returned-C', 'inplace:array-returned-by-Cij:' + mode_of(j + 2),
+                    lambda: _all([_scramble(w['raw']['C'].Cij, rng, mode_of(j + 2)) for w in watched])))
+        return out
+
+    fams = [fam_C, fam_args, fam_box, fam_positions, fam_returned]
+    for f in (fams[idx % len(fams):] + fams[:idx % len(fams)])[:nfam]:
+        muts.extend(f())
+
+    for obj, how, apply in muts:
+        restore = apply()
+        if restore is None:
+            rec.count(f'independent:not-applicable:{obj}')     # a letter / tuple / read-only array: cannot be changed in place
+            continue
+        hkind = how.split(':')[0]
+        rec.count(f'class:independent:object:{obj}')
+        rec.count(f'class:independent:how:{obj}:{how if hkind != "inplace" else "inplace"}')
+        rec.count(f'class:independent:orientation:{orient}:{obj}')
+        dirty = False
+        for w in watched:
+            bad = _changed(w['base'], w)
+            rec.count('clause:' + INDEP_CLAUSE)
+            rec.count(f'independent:evaluated:{w["cls"]}:{w["entry"]}')
+            if bad:
+                dirty = True
+                _indep_violation(rec, f'independent:{w["cls"]}:{obj}', changed_object=obj, how=how, results_that_changed=bad, orientation=orient,
+                                 entry=w['entry'], group=group)
+        restore()
+        if dirty and any(_changed(w['base'], w) for w in watched):
+            rec.count('independent:sequence-cut-short:state-did-not-come-back')
+            return False
+    rec.count('independent:sequences-completed')
+    return True
+
+
+# ----------------------------------------------------------------------------
 def make_C(am, c6, how):
-    if how == 'Cij':
-        return am.ElasticConstants(Cij=np.array(c6))
-    return am.ElasticConstants(Cijkl=O.c4_from_voigt(c6))
+    return make_C_src(am, c6, how)[0]
+
+
+def make_C_src(am, c6, how):
+    """ElasticConstants object and the array the caller built it from (kept by the harness: it is changed in place later)."""
+    src = np.array(c6, float) if how == 'Cij' else O.c4_from_voigt(c6).copy()
+    return (am.ElasticConstants(Cij=src) if how == 'Cij' else am.ElasticConstants(Cijkl=src)), src
+
+
+def _watch(sol, solver, entry, x):
+    return dict(sol=sol, solver=solver, entry=entry, x=x)
+
+
+def _still_original(pb):
+    """After the whole sequence: the attributes and Hooke's law once more against the ORIGINAL inputs."""
+    pb.attributes()
+    x = pb.x[:N_INDEP_POINTS].copy()
+    e, s_ = pb.eps(x), pb.sig(x)
+    pb.rec.close(3e-7 * pb.cmax * pb.sc_e[:N_INDEP_POINTS, None, None], s_, O.contract(pb.c4, e), 'stress equals the stiffness contracted with the strain',
+                 f'{pb.key}:hooke')
+    pb.rec.count('independent:original-inputs-clauses-re-evaluated')
 
 
 LSCALES = [1.0, 1e-10, 1e4]          # lengths (Burgers vector and positions): native, SI-like, large
@@ -391,11 +708,12 @@ def run_stroh(ctx, am):
         for c in (stiff_cls, 'mn:' + mn_cls, 'b:' + b_cls, 'orient:' + orient_cls, f'scale:{scale:g}', f'length:{ls:g}'):
             rec.count('class:stroh:' + c)
         key = 'Stroh'
-        C = make_C(am, pr['c6'], 'Cij' if i % 2 else 'Cijkl')
+        C, C_src = make_C_src(am, pr['c6'], 'Cij' if i % 2 else 'Cijkl')
         kw = dict(pr['okw'], m=pr['m_arg'], n=pr['n_arg'])
+        b_in, b_in_w = pr['b_c'].copy(), pr['b_c'].copy()          # the argument objects stay in the harness's hands
         sol = None
         with ctx.guard('Stroh solves a well-conditioned in-domain problem', f'{key}:solve', accept=(ValueError,) if extreme else ()):
-            sol = am.defect.Stroh(C, pr['b_c'].copy(), **kw)
+            sol = am.defect.Stroh(C, b_in, **kw)
         if sol is None and extreme:
             rec.count(f'stroh:extreme-magnitude-stiffness-refused:{scale:g}')
         done = False
@@ -413,12 +731,19 @@ def run_stroh(ctx, am):
                 # wrapper returns the anisotropic class when Stroh accepts
                 w = None
                 with ctx.guard('solve_volterra_dislocation solves what Stroh solves', 'wrapper:aniso:solve'):
-                    w = am.defect.solve_volterra_dislocation(C, pr['b_c'].copy(), **kw)
+                    w = am.defect.solve_volterra_dislocation(C, b_in_w, **kw)
+                watched = [_watch(sol, 'stroh', 'direct', pb.x)]
                 if w is not None:
                     rec.check(type(w) is am.defect.Stroh, 'solve_volterra_dislocation returns a Stroh solution when Stroh accepts the input',
                               'wrapper:aniso:class', got=type(w).__name__)
                     rec.close(1e-12 * np.abs(K).max(), w.K_tensor, K, 'wrapper solution equals the direct solution', 'wrapper:aniso:K')
                     rec.count('wrapper:aniso')
+                    if type(w) is am.defect.Stroh and i % 2 == 0:
+                        watched.append(_watch(w, 'stroh', 'wrapper', pb.x))
+                # ... and whatever the caller does to its objects afterwards leaves both solutions as they are
+                if independence(ctx, am, i, dict(C=C, C_src=C_src, burgers=[b_in, b_in_w], kw=kw), watched,
+                                'rotated' if pr['okw'] else 'identity', 'stroh'):
+                    _still_original(pb)
         rec.case((stiff_cls, mn_cls, b_cls, orient_cls, scale, ls), nontrivial=done,
                  fp=fingerprint(pr['c6'], pr['b_c'], pr['T'], pr['m'], pr['n']))
         if i < 24:
@@ -452,8 +777,10 @@ def run_iso(ctx, am):
         for c in ('nu:' + nu_cls, 'mn:' + mn_cls, 'b:' + b_cls, 'orient:' + orient_cls, f'length:{ls:g}'):
             rec.count('class:iso:' + c)
         how = i % 3
+        C_src = None
         if how == 0:
-            C = am.ElasticConstants(Cij=c6.copy())
+            C_src = c6.copy()
+            C = am.ElasticConstants(Cij=C_src)
         elif how == 1:
             C = am.ElasticConstants(mu=mu, nu=nu) if nu != 0 else am.ElasticConstants(mu=mu, M=lam + 2 * mu)
         else:
@@ -461,12 +788,13 @@ def run_iso(ctx, am):
         kw = dict(okw, m=m_arg, n=n_arg)
         key = 'Isotropic'
         use_wrapper = bool(i % 2)
+        b_in = b_c.copy()
         sol = None
         with ctx.guard('the isotropic solver solves an in-domain problem', f'{key}:solve'):
             if use_wrapper:
-                sol = am.defect.solve_volterra_dislocation(C, b_c.copy(), **kw)
+                sol = am.defect.solve_volterra_dislocation(C, b_in, **kw)
             else:
-                sol = am.defect.IsotropicVolterraDislocation(C, b_c.copy(), **kw)
+                sol = am.defect.IsotropicVolterraDislocation(C, b_in, **kw)
         done = False
         if sol is not None:
             if use_wrapper:
@@ -490,6 +818,9 @@ def run_iso(ctx, am):
                     def build(R):
                         return am.defect.IsotropicVolterraDislocation(C, b_c.copy(), transform=R @ T, m=R @ m, n=R @ n)
                     pb.covariance(build, K)
+                    if independence(ctx, am, i, dict(C=C, C_src=C_src, burgers=[b_in], kw=kw),
+                                    [_watch(sol, 'iso', 'wrapper' if use_wrapper else 'direct', pb.x)], 'rotated' if okw else 'identity', 'iso'):
+                        _still_original(pb)
         rec.case(('iso', nu_cls, mn_cls, b_cls, orient_cls, ls), nontrivial=done, fp=fingerprint(c6, b_c, T, m, n))
         if i < 12:
             rec.sample(dict(lam=lam, mu=mu, nu=nu, burgers=b_c, transform=T, m=m, n=n, K_tensor=None if sol is None else sol.K_tensor))
@@ -672,11 +1003,13 @@ def run_miller(ctx, am):
         rec.count('class:miller:mn:' + mn_cls)
         key = f'miller:{solver}'
         ikey = 'noncubic' if box_cls != 'cubic' else 'cubic'
-        C = am.ElasticConstants(Cij=c6.copy())
+        C_src = c6.copy()
+        C = am.ElasticConstants(Cij=C_src)
         cls = am.defect.Stroh if solver == 'stroh' else am.defect.IsotropicVolterraDislocation
+        kw_m = dict(ξ_uvw=xi_arg, slip_hkl=hkl_arg, box=box, m=m_arg, n=n_arg)
         sol = None
         with ctx.guard('the solver accepts a Miller line/plane pair obeying the zone law', f'{key}:solve:{ikey}'):
-            sol = cls(C, b_arg, ξ_uvw=xi_arg, slip_hkl=hkl_arg, box=box, m=m_arg, n=n_arg)
+            sol = cls(C, b_arg, **kw_m)
         done = False
         if sol is not None:
             rec.count('miller:solved')
@@ -739,6 +1072,10 @@ def run_miller(ctx, am):
                     rec.close(1e-8, sol3.transform, T @ R.T, 'co-rotating the cell composes the transform with R^T', f'{key}:corotated:transform')
                     rec.close(1e-6 * pb.bmag, sol3.burgers, b_d, 'co-rotating the cell leaves the dislocation-frame Burgers vector unchanged', f'{key}:corotated:burgers')
                     rec.count('miller:corotated')
+                # the caller's cell, index arrays, stiffness, ... changed afterwards (ref2 was given the same C, Burgers array and Box)
+                watched = [_watch(sol, solver, 'direct', pb.x)] + ([_watch(ref2, solver, 'direct', pb.x)] if ref2 is not None and i % 2 else [])
+                if independence(ctx, am, i, dict(C=C, C_src=C_src, burgers=[b_arg], kw=kw_m), watched, 'miller', 'miller'):
+                    _still_original(pb)
         rec.case(('miller', box_cls, solver, pair_kind, mn_cls), nontrivial=done, fp=fingerprint(c6, vects, hkl, uvw, b_uvw, m, n))
         if rnd < 1:
             rec.sample(dict(box=box_cls, vects=vects, slip_hkl=hkl_arg, xi_uvw=xi_arg, burgers=b_arg, m=m, n=n, solver=solver, transform=T))
@@ -969,11 +1306,15 @@ def run_resolve(ctx, am):
             with ctx.guard('a fresh object is constructed for the same input', f'{key}:fresh-solve'):
                 C2, b2, kw2 = _make_call(am, st)
                 fresh = cls(C2, b2, **kw2)
+            okind = {'identity': 'identity', 'miller': 'miller'}.get(st['orient']['kind'], 'rotated')
+            entry = 're-solved' if sidx else ('wrapper' if use_wrapper else 'direct')
+            iargs = dict(C=C, C_src=None, burgers=[b_arg], kw=kw)
             if light and not last:
                 if fresh is not None and read != 'none':
                     same_as_fresh(rec, sol, fresh, key, solver, xq, only=read)
                 rec.count('resolve:light-steps')
                 _inputs_unmodified(rec, key, snap, C, b_arg, kw)
+                independence(ctx, am, 4 * i + sidx, iargs, [_watch(sol, solver, entry, xq)], okind, 'resolve', nfam=2)
                 continue
             spec = dict(solver=solver, key=key, c4=e['c4'], b=e['b'], T=e['T'], m=e['m'], n=e['n'], ls=ls)
             pb = Probe(ctx, sol, spec)
@@ -1003,6 +1344,12 @@ def run_resolve(ctx, am):
             if fresh is not None:
                 same_as_fresh(rec, sol, fresh, key, solver, xq)
             _inputs_unmodified(rec, key, snap, C, b_arg, kw)
+            # the caller goes on using its objects (they are changed, then put back: the next step may hand the same objects in again)
+            watched = [_watch(sol, solver, entry, xq)] + ([_watch(rot, solver, 'partner', xq)] if rot is not None and K is not None and (i + sidx) % 2 else [])
+            if independence(ctx, am, 4 * i + sidx, iargs, watched, okind, 'resolve', nfam=2) and K is not None:
+                _still_original(pb)
+                if sidx:
+                    rec.count('independent:after-re-solve')
         if done:
             rec.count('resolve:histories-completed')
             rec.count(f'resolve:histories-of-{nsolved}-solves')
@@ -1011,6 +1358,86 @@ def run_resolve(ctx, am):
             rec.sample(dict(solver=solver, start=start_kind, changes=changes, mode='light' if light else 'full', length_scale=ls,
                             final=dict(Cij=st['stiff']['c6'], transform=e['T'], burgers_dislocation_frame=e['b'], m=e['m'], n=e['n'])))
 
+
+
+# ----------------------------------------------------------------------------
+def run_alias(ctx, am):
+    """Every way of stating the reference orientation (and a symmetry rotation of a cubic medium): solved by Stroh, by the isotropic
+    solver and through the wrapper, judged in full, then the caller changes its objects."""
+    rec = ctx.rec
+    nI = len(P.IDENT_CLASSES)
+    n_cases = ctx.pick(nI * 6, nI * 36)
+    for i in ctx.cases('alias', n_cases):
+        rng = ctx.rng
+        icls = P.IDENT_CLASSES[i % nI]
+        rnd = i // nI
+        variant = ('stroh', 'iso', 'wrapper-stroh', 'stroh', 'wrapper-iso', 'stroh')[rnd % 6]
+        solver = 'iso' if variant.endswith('iso') else 'stroh'
+        scale = P.SCALES[(rnd // 2) % 3]
+        pr = None
+        for attempt in range(80):
+            pres = P.identity_presentation(rng, icls, rnd + attempt)
+            mn_cls = 'xy' if pres['mn_fixed'] else P.MN_CLASSES[(i + rnd + attempt) % len(P.MN_CLASSES)]
+            m_arg, n_arg, m, n = P.mn_axes(rng, mn_cls)
+            T = pres['T']
+            if solver == 'stroh':
+                c6 = P.stiffness(rng, pres['stiff'] or P.STIFF_CLASSES[(i + rnd + attempt) % len(P.STIFF_CLASSES)], scale)
+                c4d = O.rotate4(O.c4_from_voigt(c6), T)
+                gap, im = O.root_gap(c4d, m, n)
+                if gap < GAP_MIN or im < IM_MIN:
+                    rec.count('alias:resampled-near-degenerate')
+                    continue
+                b_d = P.burgers_frame(rng, P.BURGERS_STROH[(i + rnd) % len(P.BURGERS_STROH)], m, n)
+            else:
+                lam, mu, nu = P.random_iso(rng, NU_CLASSES[rnd % 4])
+                lam, mu = lam * scale, mu * scale
+                c6 = P.iso_c6(lam, mu)
+                c4d = O.iso_c4(lam, mu)
+                b_d = P.burgers_frame(rng, P.BURGERS_ISO[(i + rnd) % 4], m, n)
+            pr = True
+            break
+        if pr is None:
+            raise RuntimeError('no well-separated problem in the reference orientation')
+        b_cart = T.T @ b_d
+        okw = dict(pres['okw'])
+        if pres['vects'] is not None:                      # Burgers vector in lattice coordinates of the cell
+            b_in = np.linalg.solve(pres['vects'].T, b_cart)
+            ctor = okw['box']['ctor']
+            okw['box'] = getattr(am.Box, ctor[0])(**ctor[1])
+        else:
+            b_in = b_cart.copy()
+        kw = dict(okw)
+        if not (pres['mn_fixed'] and rnd % 2):             # m='x', n='y' spelled out or left to the defaults
+            kw.update(m=m_arg, n=n_arg)
+        rec.count('class:alias:' + icls)
+        rec.count('class:alias:variant:' + variant)
+        rec.count(f'class:alias:{icls}:{solver}')
+        C, C_src = make_C_src(am, c6, 'Cij' if rnd % 2 == 0 else 'Cijkl')
+        cls = am.defect.Stroh if solver == 'stroh' else am.defect.IsotropicVolterraDislocation
+        name = 'Stroh' if solver == 'stroh' else 'Isotropic'
+        key = f'reference-orientation:{name}'
+        sol = None
+        with ctx.guard('the solver accepts a well-conditioned problem stated in the reference orientation', f'{key}:solve'):
+            sol = am.defect.solve_volterra_dislocation(C, b_in, **kw) if variant.startswith('wrapper') else cls(C, b_in, **kw)
+        done = False
+        if sol is not None and rec.check(type(sol) is cls, 'solve_volterra_dislocation returns the solver class that accepts the medium', f'{key}:wrapper-class',
+                                         got=type(sol).__name__):
+            spec = dict(solver=solver, key=key, c4=c4d, b=b_d, T=T, m=m, n=n)
+            pb = Probe(ctx, sol, spec)
+            K = pb.all()
+            if K is not None:
+                done = True
+                rec.count('alias:probed')
+                if solver == 'iso':
+                    iso_closed_form(rec, sol, pb, K, mu, nu, b_d, m, n, mn_cls, key)
+                orient = 'rotated' if icls == 'symmetry-rotation' else ('miller' if icls.startswith('miller') else 'identity')
+                rec.count(f'class:alias:stated-as:{icls}:{orient}')
+                if independence(ctx, am, i, dict(C=C, C_src=C_src, burgers=[b_in], kw=kw),
+                                [_watch(sol, solver, 'wrapper' if variant.startswith('wrapper') else 'direct', pb.x)], orient, 'alias'):
+                    _still_original(pb)
+        rec.case(('alias', icls, variant), nontrivial=done, fp=fingerprint(c6, b_cart, T, m, n))
+        if rnd < 1 and i % 3 == 0:
+            rec.sample(dict(stated_as=icls, solver=variant, keywords={k_: v_ for k_, v_ in kw.items() if k_ != 'box'}, Cij=c6, burgers=b_in))
 
 
 # ----------------------------------------------------------------------------
@@ -1027,6 +1454,7 @@ def run(ctx):
     run_limit(ctx, am)
     run_miller(ctx, am)
     run_resolve(ctx, am)
+    run_alias(ctx, am)
     # anchored regions actually executed
     rec.count('reach:VolterraDislocation.find_transform', cover.hits('atomman/defect/VolterraDislocation.py', 239, 256))
     rec.count('reach:VolterraDislocation.solve', cover.hits('atomman/defect/VolterraDislocation.py', 144, 184))
